@@ -10,6 +10,7 @@
    [lin_check] rejects the history (the quiescent Len/Keys/Values observations are its last operations)
    or [range_ok_b] rejects a Range observation. *)
 From VF Require Import Common.Base Common.Hist C04.Spec C04.Model C04.ProofsRange.
+From VF Require C04.LenCounter.
 Local Open Scope Z_scope.
 
 Record shape := { sh_levels : list nat; sh_hl : nat; sh_len : Z }.
@@ -73,7 +74,8 @@ Inductive case :=
 | SeqMap (steps : list (mop * mres * shape))
 | SeqSet (steps : list (sop * mres * shape))
 | HistMap (h : list mop') (ranges : list range_obs)
-| HistSet (h : list sop') (ranges : list range_obs).
+| HistSet (h : list sop') (ranges : list range_obs)
+| LenLag (steps : list LenCounter.lstep) (obs_len obs_keys : Z).
 
 (* like Base.scan, but a kind-2 step later in the trace wins over an earlier kind-1 step: the Spec
    verdict does not depend on the model state, so it stays meaningful after a model mismatch *)
@@ -101,6 +103,14 @@ Definition set_seq_step (st : skm * fset) (x : sop * mres * shape) : (skm * fset
 Definition hist_code (lin_ok ranges_ok : bool) : nat :=
   if negb lin_ok then 2 else if negb ranges_ok then 1 * 4 + 2 else 0.
 
+(* the length counter sampled while calls are parked at the yield points 7 / 8 (scripted): the counter protocol
+   model LenCounter predicts both the counter and the number of keys a Range reports; when the model state is
+   quiescent a counter different from the number of keys violates the property itself (kind 2) *)
+Definition len_lag_code (es : list LenCounter.lstep) (obs_len obs_keys : Z) : nat :=
+  let s := LenCounter.run es in
+  if (LenCounter.pa s =? 0) && (LenCounter.pr s =? 0) && negb (obs_len =? obs_keys) then 2
+  else if (LenCounter.len s =? obs_len) && (LenCounter.present s =? obs_keys) then 0 else 1.
+
 Definition check_case (c : case) : nat :=
   match c with
   | LazyCalls calls => if forallb lazy_call_ok_b calls then 0 else 2
@@ -112,6 +122,7 @@ Definition check_case (c : case) : nat :=
   | HistSet h rs =>
       let evs := flat_map set_events h in
       hist_code (set_lin_check [] h) (forallb (range_ok_b evs) rs)
+  | LenLag es ol ok => len_lag_code es ol ok
   end.
 
 Definition mismatches (cs : list case) : list (nat * nat) := find_bad check_case cs.
